@@ -375,10 +375,45 @@ func runProgram(id int, rng *rand.Rand, w *world, guard *h.StdioGuard) (o progOb
 	}
 	// builder chains
 	type chain struct {
-		obs chainObs
-		q   *bs.Query
+		obs  chainObs
+		q    *bs.Query
+		done bool // evaluated when it was built
 	}
 	var chains []*chain
+	evalChain := func(ch *chain) chainObs {
+		co := ch.obs
+		// the bloom + regex part through the engine (the prefilter is evaluated on its own below)
+		qq := &bs.Query{Bloom: ch.q.Bloom, Regex: ch.q.Regex}
+		co.Obs, co.QErr = w.run(qq)
+		if rt, ok := roundTrip(*ch.q); ok {
+			co.ObsJSON, _ = w.run(&bs.Query{Bloom: rt.Bloom, Regex: rt.Regex})
+			if rt.Prefilter != nil {
+				co.PreObsJSON = w.evalPre(rt.Prefilter.Expression)
+			} else {
+				co.PreObsJSON = w.evalPre(nil)
+			}
+		} else {
+			co.JSONErr, co.ObsJSON, co.PreObsJSON = true, []int{}, []int{}
+		}
+		if ch.q.Prefilter != nil {
+			co.PreObs = w.evalPre(ch.q.Prefilter.Expression)
+		} else {
+			co.PreObs = w.evalPre(nil)
+		}
+		if co.Calls == nil {
+			co.Calls = []string{}
+		}
+		if co.Bloom == nil {
+			co.Bloom = []node{}
+		}
+		if co.Regex == nil {
+			co.Regex = []node{}
+		}
+		if co.Pre == nil {
+			co.Pre = []node{}
+		}
+		return co
+	}
 	nc := 1 + rng.Intn(3)
 	for c := 0; c < nc; c++ {
 		ch := &chain{}
@@ -386,6 +421,19 @@ func runProgram(id int, rng *rand.Rand, w *world, guard *h.StdioGuard) (o progOb
 		matched, rmatched, pmatched := false, false, false
 		steps := rng.Intn(6)
 		for s := 0; s < steps; s++ {
+			// Build is not a terminator: a builder that has been built keeps taking calls, and what was built at that
+			// point is a query of its own (the conjunction written so far). Build hands out the builder's own Query, which
+			// later calls keep changing, so that query is judged now, for what it means at this point.
+			if s > 0 && rng.Intn(5) == 0 {
+				snap := &chain{q: b.Build()}
+				snap.obs.Calls = append(append([]string(nil), ch.obs.Calls...), "build")
+				snap.obs.Bloom = append([]node(nil), ch.obs.Bloom...)
+				snap.obs.Regex = append([]node(nil), ch.obs.Regex...)
+				snap.obs.Pre = append([]node(nil), ch.obs.Pre...)
+				snap.obs, snap.done = evalChain(snap), true
+				chains = append(chains, snap)
+				ch.obs.Calls = append(ch.obs.Calls, "build")
+			}
 			switch r := rng.Intn(10); {
 			case r < 3:
 				a := 1 + rng.Intn(nAtoms)
@@ -466,35 +514,8 @@ func runProgram(id int, rng *rand.Rand, w *world, guard *h.StdioGuard) (o progOb
 	}
 	for _, ch := range chains {
 		co := ch.obs
-		// the bloom + regex part through the engine (the prefilter is evaluated on its own below)
-		qq := &bs.Query{Bloom: ch.q.Bloom, Regex: ch.q.Regex}
-		co.Obs, co.QErr = w.run(qq)
-		if rt, ok := roundTrip(*ch.q); ok {
-			co.ObsJSON, _ = w.run(&bs.Query{Bloom: rt.Bloom, Regex: rt.Regex})
-			if rt.Prefilter != nil {
-				co.PreObsJSON = w.evalPre(rt.Prefilter.Expression)
-			} else {
-				co.PreObsJSON = w.evalPre(nil)
-			}
-		} else {
-			co.JSONErr, co.ObsJSON, co.PreObsJSON = true, []int{}, []int{}
-		}
-		if ch.q.Prefilter != nil {
-			co.PreObs = w.evalPre(ch.q.Prefilter.Expression)
-		} else {
-			co.PreObs = w.evalPre(nil)
-		}
-		if co.Calls == nil {
-			co.Calls = []string{}
-		}
-		if co.Bloom == nil {
-			co.Bloom = []node{}
-		}
-		if co.Regex == nil {
-			co.Regex = []node{}
-		}
-		if co.Pre == nil {
-			co.Pre = []node{}
+		if !ch.done {
+			co = evalChain(ch)
 		}
 		o.Chains = append(o.Chains, co)
 	}
